@@ -136,9 +136,10 @@ type boot struct {
 	doErr        error
 	iobRet       bool
 	stopped      bool
-	ready        int // ready notices seen
-	gone         int // gone notices seen
-	goneFull     int // gone notices after a shell had been ready
+	ready        int  // ready notices seen
+	gone         int  // gone notices seen
+	goneFull     int  // gone notices after a shell had been ready
+	goneJudged   bool // the end of the one shell has been attributed
 	goneAt       int64
 	helpAfter    int // sha256 tokens seen after the first gone notice
 	tmplOn       bool
